@@ -589,7 +589,8 @@ class RunModule:
         pkgs = sorted(self.pkgs)
         if not pkgs:
             return bad
-        p = sh(['go', 'build', './...'], cwd=self.dir, check=False, timeout=1800)
+        # generous: thousands of packages, or a few with tens of thousands of rules, on a loaded machine with a cold build cache
+        p = sh(['go', 'build', './...'], cwd=self.dir, check=False, timeout=max(10800, 20 * len(pkgs)))
         if p.returncode != 0:
             cur = None
             for line in (p.stderr + p.stdout).splitlines():
@@ -618,7 +619,7 @@ class RunModule:
         with open(os.path.join(md, 'main.go'), 'w') as fh:
             fh.write(MAIN_GO % {'imports': imports, 'cases': cases})
         self.bin = os.path.join(self.dir, 'runner')
-        sh(['go', 'build', '-o', self.bin, './cmd'], cwd=self.dir, timeout=1800)
+        sh(['go', 'build', '-o', self.bin, './cmd'], cwd=self.dir, timeout=max(10800, 20 * len(good)))
         return good
 
     def run(self, cases, timeout=600, jobs=None):
